@@ -8,6 +8,7 @@
 //              the list --first b,b,... (bytes 1..255 elsewhere; 0 is the terminator).  --full 1: one "bytes" event per string;
 //              otherwise one {"e":"agg",...} event per first byte: number of strings, maxima of (result size - bound),
 //              number of disagreements of equalsNocase with equality of the lower-cased forms
+//   --mode 3   the case walk: every code point 1..--hi H (surrogates left out): {"e":"cp","c":c,"s":[utf-8],"up":[..],"lo":[..],"ll":[lower of lo]}
 // Every input is stored flush against the end of its allocation (c08_common.h), in all three String placements.
 #include "c08_common.h"
 #include "vrec.h"
@@ -116,13 +117,14 @@ static void bytesEvent(Log& log, const std::string& s, int pl, const std::string
 int main(int argc, char** argv)
 {
 	Args a(argc, argv);
-	int shardK = 0, shardN = 1, len = 3, full = 0;
+	int shardK = 0, shardN = 1, len = 3, full = 0, hi = 2100;
 	std::set<int> first;
 	for (int i = 1; i + 1 < argc; i++)
 	{
 		if (!strcmp(argv[i], "--shard")) sscanf(argv[i + 1], "%d/%d", &shardK, &shardN);
 		else if (!strcmp(argv[i], "--len")) len = atoi(argv[i + 1]);
 		else if (!strcmp(argv[i], "--full")) full = atoi(argv[i + 1]);
+		else if (!strcmp(argv[i], "--hi")) hi = atoi(argv[i + 1]);
 		else if (!strcmp(argv[i], "--first"))
 			for (const char* q = argv[i + 1]; *q;)
 			{
@@ -148,6 +150,19 @@ int main(int argc, char** argv)
 			Obs o = observe(s, (int)(ev % 3));
 			if (!o.err.empty()) die(o.err, s);
 			log.line("{\"e\":\"text\",\"cs\":" + ints(cs) + ",\"s\":" + vj::codes(s) + ",\"o\":" + obsJson(o) + "}");
+		}
+	}
+	else if (a.mode == 3)
+	{
+		for (int c = 1; c <= hi; c++)
+		{
+			if (c >= 0xd800 && c <= 0xdfff) continue;
+			std::string s;
+			enc(s, c);
+			Obs o = observe(s, c % 3);
+			if (!o.err.empty()) die(o.err, s);
+			std::string ll = o.lo.find('\0') == std::string::npos ? lowerOf(o.lo) : o.lo;
+			log.line("{\"e\":\"cp\"," + kv("c", c) + ",\"s\":" + vj::codes(s) + ",\"up\":" + vj::codes(o.up) + ",\"lo\":" + vj::codes(o.lo) + ",\"ll\":" + vj::codes(ll) + "}");
 		}
 	}
 	else if (a.mode == 1)
